@@ -13,7 +13,8 @@ import common as C
 from props import c14
 from props.base import NAN, Prop, chunks, decs, encs
 
-KINDS = ["negate", "scale", "rename_cat", "perm_rows", "perm_cols", "rename_feat", "copy", "copy"]
+KINDS = ["negate", "scale", "rename_cat", "perm_rows", "perm_cols", "rename_feat", "copy", "copy",
+         "perm_x_only", "perm_y_only"]
 
 
 def isnan(v):
@@ -46,6 +47,28 @@ def transform(rng, a, kind, target=None):
         b["y"] = [a["y"][k] for k in idx]
         b["quanti"] = [[n, [col[k] for k in idx]] for n, col in a["quanti"]]
         b["quali"] = [[n, [col[k] for k in idx]] for n, col in a["quali"]]
+    elif kind in ("perm_x_only", "perm_y_only"):
+        # the same data set by LABEL alignment: only X (with its index labels) or only y is re-ordered
+        n = a["n"]
+        labels = list(range(n))
+        how = rng.choice(["range", "ints", "strs"])
+        if how == "ints":
+            labels = rng.sample(range(1000), n)
+        elif how == "strs":
+            labels = ["r%03d" % v for v in rng.sample(range(1000), n)]
+        if how != "range":
+            a = copy.deepcopy(a)
+            a["xi"], a["yi"] = encs(labels), encs(labels)
+            b = copy.deepcopy(a)
+        idx = list(range(n))
+        rng.shuffle(idx)
+        if kind == "perm_x_only":
+            b["quanti"] = [[nm, [col[k] for k in idx]] for nm, col in a["quanti"]]
+            b["quali"] = [[nm, [col[k] for k in idx]] for nm, col in a["quali"]]
+            b["xi"], b["yi"] = encs([labels[k] for k in idx]), encs(labels)
+        else:
+            b["y"] = [a["y"][k] for k in idx]
+            b["xi"], b["yi"] = encs(labels), encs([labels[k] for k in idx])
     elif kind == "perm_cols":
         rng.shuffle(b["quanti"])
         rng.shuffle(b["quali"])
@@ -110,6 +133,51 @@ def gen_special_pair(rng, which):
     return {"kind": k, "a": a2, "b": b, "ren": ren, "must": must}
 
 
+def gen_colsample_pair(rng):
+    """colsample < 1: the same frame selected under two random seeds.  The feature list is shuffled
+    and cut in int(1/colsample) samples (feature counts that are NOT multiples of it), n_best // 2
+    features are pre-selected per sample, then n_best among them: the weak features may differ
+    between the two runs (free), the copy of the target must be returned by both, and the measured
+    samples must be a partition of the shuffled list."""
+    n = rng.choice([20, 30, 40])
+    k = rng.choice([2, 2, 3])
+    labs = rng.choice([list(range(k)), [10 * i + 1 for i in range(k)]])
+    y = [labs[i % k] for i in range(n)]
+    rng.shuffle(y)
+    yn = [labs.index(v) for v in y]
+    cs = rng.choice([0.5, 0.34, 0.25])
+    nq = rng.choice([3, 5, 6, 7, 9]) if cs != 0.25 else rng.choice([5, 6, 7, 9, 10])
+    quanti, quali = [], []
+    for _ in range(nq - 1):
+        w = rng.choice([3, 5, 8])
+        quanti.append([rng.choice([0, 1, 2]) * v + rng.randint(0, w) + (0 if rng.random() < 0.8 else rng.randint(0, 9))
+                       for v in yn])
+    how = rng.choice(["copy", "affine", "cube"])
+    tq = [float(v) if how == "copy" else (2.0 * v + 1 if how == "affine" else float(v) ** 3) for v in y]
+    qn = ["q%d" % i for i in range(nq - 1)] + ["tq"]
+    quanti.append(tq)
+    must = ["tq"]
+    ln = []
+    if rng.random() < 0.3:  # a second dtype: chunks is computed from ALL features, samples may be empty
+        for i in range(rng.choice([2, 3])):
+            quali.append(["abc"[rng.randrange(3)] for _ in y])
+            ln.append("s%d" % i)
+        quali.append(["T%d" % v for v in yn])
+        ln.append("ts")
+        must.append("ts")
+    order = list(range(len(quanti)))
+    rng.shuffle(order)
+    nf = len(quanti) + len(quali)
+    kw = {} if rng.random() < 0.6 else {"thresh_corr": rng.choice([1.0, 0.9])}
+    a = c14.mk_case("classification", y, [quanti[i] for i in order], quali, rng.choice([2, 3, 4, min(5, nf)]),
+                    None, None, None, None, kw, qnames=[qn[i] for i in order], lnames=ln or None)
+    a["colsample"] = float(cs).hex()
+    a["rseed"] = rng.randrange(10 ** 6)
+    b = copy.deepcopy(a)
+    b["rseed"] = rng.randrange(10 ** 6)
+    return {"kind": "colsample", "a": a, "b": b, "ren": {f: f for f in qn + ln}, "must": must, "free": True}
+
+
 def type_of(case, name):
     return "float" if name in [n for n, _ in case["quanti"]] else "str"
 
@@ -152,7 +220,9 @@ class C15(Prop):
         ns = 1 if tier == "quick" else 8
         return ([gen_pair(rng) for _ in range(n)] + [gen_special_pair(rng, "iqr") for _ in range(24 * ns)]
                 + [gen_special_pair(rng, "two") for _ in range(8 * ns)]
-                + [gen_special_pair(rng, "filter") for _ in range(8 * ns)])
+                + [gen_special_pair(rng, "filter") for _ in range(8 * ns)]
+                + [gen_pair(rng, rng.choice(["perm_x_only", "perm_y_only"])) for _ in range(24 * ns)]
+                + [gen_colsample_pair(rng) for _ in range(40 * ns)])
 
     def search_cases(self, rng, neighbours, rnd):
         return [gen_pair(rng) for _ in range(50)]
@@ -165,6 +235,7 @@ class C15(Prop):
         oa, ob = out["a"], out["b"]
         ta, tb = c14.build_tables(case["a"], oa), c14.build_tables(case["b"], ob)
         ties = c14.ties_present(ta) or c14.ties_present(tb) or self.boundary(ta) or self.boundary(tb)
+        free = bool(case.get("free"))
         fails = []
         if not (oa["unchanged"] and ob["unchanged"]):
             fails.append(("modified", "X or y was modified by select()"))
@@ -173,37 +244,55 @@ class C15(Prop):
                                    f"{ob['err'] or 'ok'} {ob.get('err_msg', '')}"))
         elif oa["err"] is None:
             exp = [case["ren"][f] for f in oa["sel"]]
-            if exp != ob["sel"] and not ties:
+            if exp != ob["sel"] and not ties and not free:
                 fails.append(("different", f"{case['kind']}: original run returns {oa['sel']} (renamed: {exp}), "
                                            f"re-encoded run returns {ob['sel']}"))
-        for f in (case["must"] if oa["err"] is None else []):  # a raised error is C14's business
-            d = type_of(case["a"], f)
-            sel = oa["sel"] or []
-            if f in sel:
-                continue
-            t = ta.get(d)
-            ok = False
-            assoc = [j for j, k in enumerate(t["ms"]) if k not in c14.GATES] if t is not None else []
-            if t is not None and not assoc:
-                ok = True  # no association measure requested for this type: nothing can be returned
-            elif t is not None:
-                row = {r["name"]: r for r in t["rows"]}
-                r = row[f]
-                last = assoc[-1]
-                s = r["spec"][last]
-                if any(k in c14.GATES and r["raw"][j]["key"] is not None and not r["raw"][j]["key"] < t["mthr"][j]
-                       for j, k in enumerate(t["ms"])):
-                    ok = True  # screened out by an outlier gate
-                elif not c14.Fr(r["cnt_nan"], t["n"]) < t["tnan"] or not c14.Fr(r["cnt_mode"], t["n"]) < t["tmode"]:
-                    ok = True  # fails thresh_nan / thresh_mode
-                elif s is not None:
-                    better = [g for g in sel if g in row and row[g]["spec"][last] is not None
-                              and row[g]["spec"][last] >= s]
-                    ok = (len(better) >= t["n_best"]
-                          or any(flt["mat"][(f, g)] >= flt["thresh"] for flt in t["filters"] for g in better))
-            if not ok:
-                fails.append(("copy", f"{f} (an exact copy / strictly monotone function of the target) is not "
-                                      f"returned: {sel} {oa['err'] or ''}"))
+        sides = [("a", case["a"], ta, oa, list(case["must"]))]
+        if free:
+            sides.append(("b", case["b"], tb, ob, [case["ren"][f] for f in case["must"]]))
+        for side, cs_, tabs_, o_, must in sides:
+            for f in (must if o_["err"] is None else []):  # a raised error is C14's business
+                d = type_of(cs_, f)
+                sel = o_["sel"] or []
+                if f in sel:
+                    continue
+                t = tabs_.get(d)
+                ok = False
+                assoc = [j for j, k in enumerate(t["ms"]) if k not in c14.GATES] if t is not None else []
+                if t is not None and not assoc:
+                    ok = True  # no association measure requested for this type: nothing can be returned
+                elif t is not None:
+                    row = {r["name"]: r for r in t["rows"]}
+                    r = row[f]
+                    last = assoc[-1]
+                    s = r["spec"][last]
+                    if any(k in c14.GATES and r["raw"][j]["key"] is not None
+                           and not r["raw"][j]["key"] < t["mthr"][j] for j, k in enumerate(t["ms"])):
+                        ok = True  # screened out by an outlier gate
+                    elif (not c14.Fr(r["cnt_nan"], t["n"]) < t["tnan"]
+                          or not c14.Fr(r["cnt_mode"], t["n"]) < t["tmode"]):
+                        ok = True  # fails thresh_nan / thresh_mode
+                    elif s is not None:
+                        better = [g for g in sel if g in row and row[g]["spec"][last] is not None
+                                  and row[g]["spec"][last] >= s]
+                        ok = (len(better) >= t["n_best"]
+                              or any(flt["mat"][(f, g)] >= flt["thresh"] for flt in t["filters"] for g in better))
+                if not ok:
+                    extra = ""
+                    if cs_.get("colsample") is not None:
+                        extra = (f" (colsample={float.fromhex(cs_['colsample'])}, random.seed({cs_.get('rseed')}), "
+                                 f"shuffled {o_.get('shuffled')}, measured samples "
+                                 f"{[c[1] for c in (o_.get('calls') or [])]})")
+                    fails.append(("copy", f"{f} (an exact copy / strictly monotone function of the target) is not "
+                                          f"returned in run {side}: {sel} {o_['err'] or ''}{extra}"))
+            # colsample < 1: the measured samples are a partition of the shuffled feature list
+            for d, t in tabs_.items():
+                cs = t.get("cs")
+                if cs is not None and o_["err"] is None:
+                    flat = [f for s_ in cs["observed"] for f in s_]
+                    if flat != cs["shuffled"]:
+                        fails.append(("partition", f"run {side}: the measured samples {cs['observed']} are not a "
+                                                   f"partition of the shuffled {d} features {cs['shuffled']}"))
         return ta, tb, ties, fails
 
     @staticmethod
@@ -231,6 +320,9 @@ class C15(Prop):
                 sig = "regression_default_distance_measure_sign"
             elif tag == "different" and reg_default and case["kind"] == "negate":
                 sig = "regression_default_distance_measure_sign"
+            elif tag == "different" and reg_default and case["kind"] in ("perm_x_only", "perm_y_only"):
+                # distance_measure hands the VALUES of x[~nans], y[~nans] to scipy: paired by position
+                sig = "distance_measure_pairs_rows_by_position"
             elif tag == "copy" and all(
                     len(c14.case_lists(a, type_of(a, f))[0]) >= 2 or c14.case_lists(a, type_of(a, f))[0] == ["chi2"]
                     for f in case["must"]):
@@ -255,7 +347,7 @@ class C15(Prop):
             rens.append(C.clist([f"{nb.index(case['ren'][f]) if case['ren'][f] in nb else 0}%nat"
                                  for f in ta[d]["names"]]))
             musts.append(C.clist([f"{ta[d]['names'].index(f)}%nat" for f in case["must"] if f in ta[d]["names"]]))
-        return f"mkC15 ({ca}) ({cb}) {C.clist(rens)} {C.clist(musts)}"
+        return f"mkC15 ({ca}) ({cb}) {C.clist(rens)} {C.clist(musts)} {C.cbool(bool(case.get('free')))}"
 
     def coq_shards(self, cases, outs):
         shards = []
